@@ -22,7 +22,6 @@ RULE = ('(a) component injection: username, password, 1-4 path segments, 0-4 que
         'URLParseError, find_all_links never raises, for arbitrary/salted/mutated texts. non-trivial: (a) some component contains a character '
         'that must be escaped there; (b) text with "%" or non-ASCII; (c) >= 3 non-empty components; (d) text that matches the URL regex with '
         'a non-empty authority. distinct = distinct canonical JSON of the case.')
-RULE += ' Round 6: build form assign_rendered - the URL object is rendered (both quoting levels, str()) while half-built and completed afterwards through attribute assignment and query_params.addlist/update_extend/add.'
 ASSUMPTIONS = [
     'no lone surrogates (not encodable as UTF-8); hosts in (a)/(c) are DNS-encodable (IDNA) names over a nameprep-stable lower-case alphabet or IP literals',
     'a query pair with an empty key and no value cannot be written in a query string and is not generated',
